@@ -28,7 +28,7 @@ COMPONENTS = ['cli']
 THEOREMS = ['C12_cli_exit_in_012', 'C12_usage_is_2', 'C12_stdout_only_on_success',
             'C12_write_failure_is_exit1', 'C12_healthy_run_succeeds', 'C12_string_mode_is_value', 'C12_yaml_stream_shape',
             'C12_multi_files_are_visible_fields', 'C12_no_trailing_newline_only_last',
-            'C12_tla_bind_by_name', 'C12_tla_bind_permutation', 'C12_ext_code_lazy',
+            'C12_tla_bind_by_name', 'C12_tla_bind_permutation', 'C12_ext_code_lazy', 'C12_input_failure_is_exit1', 'C12_tla_misuse_never_succeeds',
             'C12_var_split_at_first_eq', 'C12_no_panic', 'C12_needs_flush', 'C12_nonvacuous']
 ALLOWED_AXIOMS = set()
 TRANSLATORS = []
@@ -220,7 +220,7 @@ FLAG = {'es': '--ext-str', 'esf': '--ext-str-file', 'ec': '--ext-code', 'ecf': '
 def default_case():
     return {'src': '1', 'func': None, 'in': 'e', 'S': False, 'y': False, 'ntn': False, 'm': None, 'o': None,
             'so': 'pipe', 's': None, 't': None, 'vars': [], 'env': {}, 'files': {}, 'bad_argv': None,
-            'expect_rc': None, 'expect_stdout': None}
+            'expect_rc': None, 'expect_stdout': None, 'jpath': []}
 
 
 def mk(**kw):
@@ -265,6 +265,8 @@ class CaseRunner:
             a += ['-m', self.mdir(c)]
         if c['o'] is not None:
             a += ['-o', self.opath(c)]
+        for j in c['jpath']:
+            a += ['-J', j]
         for kind, raw in c['vars']:
             a += [FLAG[kind], raw]
         if c['bad_argv'] is not None:
@@ -319,10 +321,20 @@ class CaseRunner:
         open(os.path.join(d, 'afile'), 'wb').write(b'AFILE')
         open(os.path.join(d, 'old.txt'), 'wb').write(b'OLD CONTENT\n')
         open(os.path.join(d, 'in.jsonnet'), 'wb').write(c['src'].encode('utf-8'))
-        for name, content in c['files'].items():
-            open(os.path.join(d, name), 'wb').write(content.encode('utf-8') if isinstance(content, str) else bytes(content))
+        self.put_files(c, d)
         if c['m'] and c['m'].startswith('ok:full='):
             os.symlink('/dev/full', os.path.join(d, 'mdir', c['m'][len('ok:full='):]))
+
+    @staticmethod
+    def put_files(c, d, only_nested=False):
+        for name, content in c['files'].items():
+            if only_nested and '/' not in name:
+                continue
+            p = os.path.join(d, name)
+            os.makedirs(os.path.dirname(p), exist_ok=True)
+            data = content.encode('utf-8') if isinstance(content, str) else bytes(content)
+            if not (os.path.exists(p) and open(p, 'rb').read() == data):
+                open(p, 'wb').write(data)
 
     def snapshot(self, d):
         snap = {}
@@ -402,6 +414,10 @@ class CaseRunner:
         a = []
         if c['s'] is not None:
             a += ['-s', str(c['s'])]
+        for j in c['jpath']:
+            a += ['-J', j]
+        if c['jpath']:
+            self.put_files(c, self.plain_dir, only_nested=True)
         for kind, raw in c['vars']:
             if kind in EXT_KINDS:
                 # file-based kinds are handed to the plain runs by content (the plain runs share one directory)
@@ -583,8 +599,8 @@ class CaseRunner:
         k = c['in']
         inp = {'e': c['src'], 'stdin': '-', 'stdin_closed': '-', 'stdin_dir': '-', 'file': 'in.jsonnet',
                'missing': 'nothere.jsonnet', 'dirinput': 'adir', 'none': ''}[k]
-        cfg = '(%s %s () %s %s %s %s %s %s %s %s)' % (
-            xb(inp), xbool(k == 'e'),
+        cfg = '(%s %s %s %s %s %s %s %s %s %s %s)' % (
+            xb(inp), xbool(k == 'e'), xlist(c['jpath'], xb),
             xopt(self.opath(c) if c['o'] else None, xb), xopt(self.mdir(c) if c['m'] else None, xb),
             xbool(c['y']), xbool(c['S']), xbool(c['ntn']), xopt(c['s'], xn), xopt(c['t'], xn),
             ' '.join(xlist(vars_by[kk], xb) for kk in EXT_KINDS + TLA_KINDS))
@@ -928,6 +944,16 @@ def gen_cases(rng, tier):
             cases.append(mk(src=fsrc, func=fdesc, vars=vs, files=files, S=(fi in (2, 4, 5) and rng.random() < 0.7),
                             ntn=rng.random() < 0.3, m=('ok' if fi == 1 and rng.random() < 0.5 else None),
                             o=rng.choice([None, None, 'ok']), **{'in': rng.choice(inkinds)}))
+    # F'. library search directories (right-most wins; the search itself is C13's subject)
+    def lib(text):
+        return 'lib_' + hashlib.sha256(text.encode()).hexdigest()[:10]
+    la, lb = '"from A"', '"from B"'
+    da, db = lib(la), lib(lb)
+    jfiles = {da + '/x.libsonnet': la, db + '/x.libsonnet': lb, da + '/onlya.libsonnet': '"only A"'}
+    cases.append(mk(src='import "x.libsonnet"', S=True, jpath=[da, db], files=jfiles, expect_rc=0, expect_stdout='from B\n'))
+    cases.append(mk(src='import "x.libsonnet"', S=True, jpath=[db, da], files=jfiles, expect_rc=0, expect_stdout='from A\n', **{'in': 'file'}))
+    cases.append(mk(src='[import "x.libsonnet", import "onlya.libsonnet"]', y=True, jpath=[da, db], files=jfiles, expect_rc=0, **{'in': 'stdin'}))
+    cases.append(mk(src='import "x.libsonnet"', S=True, jpath=[], files=jfiles, expect_rc=1))
     # F. stack limit reached or not
     deep = 'local f(n) = if n == 0 then 0 else 1 + f(n - 1); f(%d)'
     for n, s in [(100, 30), (100, 2000), (10, None), (300, 100)]:
